@@ -920,3 +920,57 @@ Qed.
 Lemma tool_opens_store_where_nodehost_does_proved nhdir waldir :
   tool_store_dirs nhdir waldir = nodehost_store_dirs nhdir waldir.
 Proof. reflexivity. Qed.
+
+(* ------------------------------------------------------------------ *)
+(* crash points                                                         *)
+
+(* the snapshot directory of the replica does not exist: nothing is in it *)
+Definition host_consistent_with (ssdir_exists : bool) (st : hstate) : Prop :=
+  ssdir_exists = false -> h_old_images st = false /\ h_temp st = false /\ h_final st = false.
+
+(* a host on which the export has not been imported yet: after ANY number of
+   steps of a run, a power failure never leaves the log store naming the
+   imported image without the finalised image being there *)
+Lemma crash_never_half_imported_proved b k st :
+  host_consistent_with b st -> h_record_imported st = false ->
+  half_imported (host_after (firstn k (success_trace b)) st) = false.
+Proof.
+  intros Hc Hr. destruct st as [o t tc f r]. cbn in Hr. subst r.
+  unfold host_consistent_with in Hc. cbn in Hc.
+  destruct b.
+  - do 17 (destruct k as [|k]; [destruct o, t, tc, f; reflexivity|]).
+    destruct o, t, tc, f; reflexivity.
+  - destruct (Hc eq_refl) as (-> & -> & ->).
+    do 17 (destruct k as [|k]; [destruct tc; reflexivity|]).
+    destruct tc; reflexivity.
+Qed.
+
+(* running the tool again after a power failure at any step (or on any other
+   leftover state) ends in the completely repaired host *)
+Lemma import_rerunnable_proved b st :
+  host_consistent_with b st ->
+  host_after (success_trace b) st = mkH false false false true true.
+Proof.
+  intros Hc. destruct st as [o t tc f r]. unfold host_consistent_with in Hc. cbn in Hc.
+  destruct b.
+  - destruct o, t, tc, f, r; reflexivity.
+  - destruct (Hc eq_refl) as (-> & -> & ->). destruct tc, r; reflexivity.
+Qed.
+
+Lemma crash_then_rerun_repairs_proved b b' k st :
+  host_consistent_with b' (host_after (firstn k (success_trace b)) st) ->
+  host_after (success_trace b') (host_after (firstn k (success_trace b)) st) = mkH false false false true true.
+Proof. apply import_rerunnable_proved. Qed.
+
+(* observation O7: on a host that already records the imported image (the tool
+   is run a second time) the window between cleanupSnapshotDir and
+   FinalizeSnapshot leaves the record without its image *)
+Lemma reimport_crash_window :
+  exists k, half_imported (host_after (firstn k (success_trace true)) (mkH false false false true true)) = true.
+Proof. exists 11%nat. reflexivity. Qed.
+
+(* a run whose checks pass and whose I/O never fails executes exactly success_trace *)
+Lemma import_run_success_trace inp old :
+  all_checks_pass inp old -> in_env_fail inp = [] ->
+  fst (import_run inp) = success_trace (in_ssdir_exists inp).
+Proof. intros H He. rewrite (import_run_success inp old H He). reflexivity. Qed.
